@@ -32,7 +32,7 @@ type CoreInput struct {
 	TraceOut   string      `json:"trace_out"`
 	LoadLimits bool        `json:"load_limits"` // C15: limited loads of every replica's persisted log
 	Snapshots  bool        `json:"snapshots"`   // C13: save / load snapshot of every replica
-	FinalSync  bool        `json:"final_sync"` // after the last step, sync everyone to everything and compare pairwise
+	FinalSync  bool        `json:"final_sync"`  // after the last step, sync everyone to everything and compare pairwise
 	Keys       []string    `json:"keys"`
 	Vals       []string    `json:"vals"`
 	BigVal     string      `json:"big_val"` // C13: this abstract value stands for an oversize payload
